@@ -601,6 +601,11 @@ func (fr *Frame) guardedAccess(a *Val, st *State, pos token.Pos) {
 					u.insertOnlyAddrs = append(u.insertOnlyAddrs, a)
 				}
 			}
+			for _, nd := range m.NoDelete {
+				if nd == fname {
+					u.noDeleteAddrs = append(u.noDeleteAddrs, a)
+				}
+			}
 		}
 	}
 }
